@@ -218,3 +218,17 @@ Definition c15_focus_checkb (t : wtree) (w : Z) (evs : list fev) : bool :=
   outs_before_ins evs false &&
   fev_same (filter (fun e => negb (is_in e)) evs) outs &&
   fev_same (filter is_in evs) ins.
+
+(* ------------------------------------------------------------------------------------ *)
+(* C01 with pending damage (handlers that re-enter the window layer during the flush add
+   damage that only the next flush renders): every cell OUTSIDE the pending damage shows the
+   composition, and whenever damage is pending the flags that make the next flush render it
+   are set *)
+Definition c01_pending_checkb (app : Z -> Z -> Z -> Z) (t : wtree) (nl nc : Z) (grid : cell -> Z)
+  (damage : list rect) (nexp later : bool) : bool :=
+  forallb (fun p => in_any damage p ||
+                    match compose app t p with
+                    | Some c => grid p =? c
+                    | None => true
+                    end) (grid_cells nl nc) &&
+  (match damage with [] => true | _ :: _ => nexp && later end).
